@@ -152,8 +152,12 @@ func (c *Authority) VerifyQuorumCert(qc hotstuff.QuorumCert) error {
 
 // VerifyTimeoutCert verifies a timeout certificate.
 func (c *Authority) VerifyTimeoutCert(tc hotstuff.TimeoutCert) error {
-	// view 0 TC is always valid.
+	// the TC for view 0 is the initial one, which nobody signed: it is valid as such, but only as such
+	// (what a "view 0 certificate" carries as signature would otherwise be accepted unexamined).
 	if tc.View() == 0 {
+		if tc.Signature() != nil {
+			return fmt.Errorf("timeout certificate for view 0 carries a signature")
+		}
 		return nil
 	}
 	if tc.Signature() == nil {
